@@ -472,7 +472,7 @@ PROPS = {
     "C03": {
         "generated": True,
         "proof_modules": ["GrolProofs.Props.C03", "GrolProofs.Props.C08", "GrolProofs.Props.C03Lexed"],
-        "theorems": ["Grol.C03.exactly_one_newline_lexed", "Grol.LexStream.lexer_litFact", "Grol.C03.exactly_one_newline_parsed", "Grol.Parser.parseProgram_endOK", "Grol.Parser.litFact_of_b", "Grol.Parser.allEnd",
+        "theorems": ["Grol.C03.idempotent_partial_lex", "Grol.C03.idempotent_tokens", "Grol.C03.exactly_one_newline_lexed", "Grol.LexStream.lexer_litFact", "Grol.C03.exactly_one_newline_parsed", "Grol.Parser.parseProgram_endOK", "Grol.Parser.litFact_of_b", "Grol.Parser.allEnd",
                      "Grol.C03.ends_with_newline", "Grol.C03.exactly_one_newline", "Grol.Printer.printNode_P", "Grol.Printer.printNode_frame", "Grol.C03.model_is_stateless",
                      "Grol.C03.witness_not_idempotent", "Grol.C08.printer_never_panics"],
         "suites": ["format03"],
